@@ -893,8 +893,13 @@ type pfCounters struct {
 	mw, h atomic.Int64
 }
 
-func pfServer(cnt *pfCounters, toolName string, schema []*pfProp) *Server {
-	s := NewServer(&Implementation{Name: "verif", Version: "1"}, nil)
+func pfServer(cnt *pfCounters, toolName string, schema []*pfProp, noSID bool) *Server {
+	var sopts *ServerOptions
+	if noSID {
+		// a server that issues no session ids: a stateful handler serves every POST on an ephemeral session
+		sopts = &ServerOptions{GetSessionID: func() string { return "" }}
+	}
+	s := NewServer(&Implementation{Name: "verif", Version: "1"}, sopts)
 	s.AddReceivingMiddleware(func(next MethodHandler) MethodHandler {
 		return func(ctx context.Context, method string, req Request) (Result, error) {
 			cnt.mw.Add(1)
@@ -1006,6 +1011,7 @@ type pfHTTPCase struct {
 	bodyMode  string
 	abortAt   int
 	abortDecl bool
+	noSID     bool // the server's GetSessionID returns "" (stateful handler: ephemeral sessions)
 	wire      bool // send the request over a real loopback socket through net/http's server instead of calling ServeHTTP
 }
 
@@ -1376,6 +1382,7 @@ func (g *pfGen) httpCase() *pfHTTPCase {
 			}
 		}
 		c.wire = c.kind != "sse" && c.localAddr == "127.0.0.1:8080" && c.bodyMode != "ab" && g.chance(20)
+		c.noSID = c.kind == "sf" && g.chance(15)
 	} else {
 		c.bodyMode = "cl"
 	}
@@ -1531,7 +1538,7 @@ func pfPropsFromJSON(data json.RawMessage) []*pfProp {
 // run executes the case against the real handler and returns (op tokens, observation, tags).
 func (c *pfHTTPCase) run() (op, obs string, tags []string) {
 	cnt := &pfCounters{}
-	srv := pfServer(cnt, c.toolName, c.schema)
+	srv := pfServer(cnt, c.toolName, c.schema, c.noSID)
 	var handler http.Handler
 	var sh *StreamableHTTPHandler
 	var cop *http.CrossOriginProtection
@@ -1753,7 +1760,7 @@ func (c *pfHTTPCase) run() (op, obs string, tags []string) {
 		}
 		paramTok = pfParamHdrTok(req.Header)
 		return strings.Join([]string{"http", "K" + c.kind, "pd" + pfB01(c.disabled), "la" + pfB01(hasLocal), "ll" + pfB01(listenerLoop), "hl" + pfB01(hostLoop),
-			"or" + pfB01(originRejects), "M" + meth, "ct" + hxs(media), pfAcceptTok(req.Header.Values("Accept")), "pv" + hxs(req.Header.Get(protocolVersionHeader)), "ss" + sess,
+			"or" + pfB01(originRejects), "M" + meth, "ct" + hxs(media), pfAcceptTok(req.Header.Values("Accept")), "pv" + hxs(req.Header.Get(protocolVersionHeader)), "ss" + sess, "ns" + pfB01(c.noSID),
 			"le" + pfB01(len(req.Header.Values(lastEventIDHeader)) > 0),
 			"lim" + strconv.FormatInt(c.limit, 10), "len" + strconv.Itoa(len(delivered)), "dl" + strconv.FormatInt(req.ContentLength, 10), "rf" + pfB01(readFails),
 			"mm" + hxs(req.Header.Get(methodHeader)), "mn" + hxs(req.Header.Get(nameHeader)), paramTok, bodyTok}, " ")
@@ -1872,6 +1879,9 @@ func (c *pfHTTPCase) run() (op, obs string, tags []string) {
 		obs = fmt.Sprintf("S=%d E=%s A=%s R=%d H=%d D=%d", rec.Code, code, allow, cnt.mw.Load()-mw0, cnt.h.Load()-h0, d)
 	}
 	tags = []string{"http-" + c.kind, fmt.Sprintf("http-%s-%d", c.kind, rec.Code), c.sizeClass, "body-" + strings.Fields(bodyTok)[0][1:], fmt.Sprintf("ph%d", strings.Count(paramTok, "=")), "bd-" + c.bodyMode, pfDepthTag(c.schema)}
+	if c.noSID {
+		tags = append(tags, "no-session-ids")
+	}
 	if wired {
 		tags = append(tags, "wire")
 	}
